@@ -59,7 +59,11 @@ impl log::Log for FlexiLogger {
 
         if !self.other_writers.is_empty() && target.starts_with('{') {
             // at least one other writer is configured _and_ addressed
-            let targets: Vec<&str> = target[1..(target.len() - 1)].split(',').collect();
+            let targets: Vec<&str> = target
+                .get(1..(target.len() - 1))
+                .unwrap_or_default()
+                .split(',')
+                .collect();
             for t in targets {
                 if t != "_Default" {
                     match self.other_writers.get(t) {
@@ -85,7 +89,11 @@ impl log::Log for FlexiLogger {
         let special_target_is_used = target.starts_with('{');
         if special_target_is_used {
             let mut use_default = false;
-            let targets: Vec<&str> = target[1..(target.len() - 1)].split(',').collect();
+            let targets: Vec<&str> = target
+                .get(1..(target.len() - 1))
+                .unwrap_or_default()
+                .split(',')
+                .collect();
             for t in targets {
                 if t == "_Default" {
                     use_default = true;
